@@ -96,6 +96,12 @@ func suiteDiffReport(c *Ctx) error {
 			newSrc += shapeFn(fmt.Sprintf("Form%c", 'X'+k), k)
 			plan = append(plan, plannedFn{fmt.Sprintf("Shape%c", 'A'+k), fmt.Sprintf("Form%c", 'X'+k), "renamed-sameshape"})
 		}
+		{
+			so, sn := zipperStressPairs(rr)
+			oldSrc += strings.TrimPrefix(so, "package genpkg\n")
+			newSrc += strings.TrimPrefix(sn, "package genpkg\n")
+			plan = append(plan, plannedFn{"Stress", "Stress", "edited"})
+		}
 		fOld, err := writeModule(c.Work, fmt.Sprintf("dr%d_old", pi), "a.go", oldSrc)
 		if err != nil {
 			return err
@@ -132,6 +138,32 @@ func suiteDiffReport(c *Ctx) error {
 		}
 		for _, x := range newRes {
 			newShort[cli.ShortFunctionName(x.FunctionName)]++
+		}
+		// ---- C09 last clause: the zipper's matching behind every name-paired function ----
+		{
+			oldByShort, newByShort := map[string]diff.FingerprintResult{}, map[string]diff.FingerprintResult{}
+			for _, x := range oldRes {
+				oldByShort[cli.ShortFunctionName(x.FunctionName)] = x
+			}
+			for _, x := range newRes {
+				newByShort[cli.ShortFunctionName(x.FunctionName)] = x
+			}
+			for _, m := range out.TopologyMatches {
+				o, n := oldByShort[m.OldFunction], newByShort[m.NewFunction]
+				if o.GetSSAFunction() == nil || n.GetSSAFunction() == nil {
+					continue
+				}
+				if checkZipper(o.GetSSAFunction(), n.GetSSAFunction(), func(cls, d string, extra map[string]interface{}) {
+					for k, v := range rp {
+						if _, has := extra[k]; !has {
+							extra[k] = v
+						}
+					}
+					c.Violate("C09", cls, fmt.Sprintf("pair %d, %s / %s: %s", pi, m.OldFunction, m.NewFunction, d), extra)
+				}) {
+					c.Count("zipper_pairs_checked")
+				}
+			}
 		}
 		// ---- C09 clauses on the real report ----
 		seenOld, seenNew := map[string]int{}, map[string]int{}
